@@ -151,6 +151,11 @@ def run(tier: str, replay: str | None = None):
         for i in range(3 if tier == "quick" else 30):
             src, calls = G.gen_binding_module(brng, 12, hist)
             mods.append({"id": f"bind{i}", "src": src, "calls": calls})
+        # containers built in several steps (written twice, read once) and read back through every reading form
+        wrng = random.Random(lib.seed() * 7919 + 7559)
+        for i in range(4 if tier == "quick" else 30):
+            src, calls = G.gen_container_module(wrng, 12, hist)
+            mods.append({"id": f"cont{i}", "src": src, "calls": calls})
     by_id = {m["id"]: m for m in mods}
 
     # 3. run implementation + CPython + oracle (subprocess shards)
